@@ -348,7 +348,7 @@ def main(argv=None):
             known_hits.append(sig)
             print("KNOWN-FINDING: property=%s sig=%s %s (%d cases this run)"
                   % (prop_id, sig, known[sig], fail_counts[sig]))
-    fdir = os.path.join(HERE, "failures", prop_id)
+    fdir = os.path.join(os.environ.get("ZCV_FAILURES_DIR") or os.path.join(HERE, "failures"), prop_id)
     reported = []
     for sig in new_sigs:
         violations += 1
@@ -414,8 +414,9 @@ def main(argv=None):
         "wall_s": round(time.time() - t0, 2),
         "violations": violations,
     }
-    os.makedirs(os.path.join(HERE, "evidence"), exist_ok=True)
-    with open(os.path.join(HERE, "evidence", "%s.json" % prop_id), "w",
+    evdir = os.environ.get("ZCV_EVIDENCE_DIR") or os.path.join(HERE, "evidence")
+    os.makedirs(evdir, exist_ok=True)
+    with open(os.path.join(evdir, "%s.json" % prop_id), "w",
               encoding="utf-8") as f:
         json.dump(ev, f, indent=1, ensure_ascii=True, default=repr)
         f.write("\n")
